@@ -53,7 +53,7 @@ def main():
                 ac = ",".join(f"{t}:{show(v)}" for t, v in sig.all_changes())
                 vi = ",".join(show(sig.value_at_idx(i)) for i in range(n + 2))
                 vt = ",".join(f"{t}:{show(sig.value_at_time(t))}" for t in times)
-                ttq = ",".join(opt(w.time_table[i]) for i in (-1, 0, n, -n))
+                ttq = ",".join(opt(w.time_table[i]) for i in ([-1, 0, n, -n] + list(range(-n - 3, n + 3)) + [-2 * n - 7, -1000000, 1000000]))
                 line = f"AC={ac};VI={vi};VT={vt};TT={ttq}"
             except BaseException as e:  # noqa: BLE001  (pyo3 panics surface as BaseException)
                 line = f"panic:{type(e).__name__}"
